@@ -1201,7 +1201,9 @@ class Interp:
         if self.call_depth > 60:
             self.call_depth = 0
             raise PyException(self.make_exc("RuntimeError", "maximum recursion depth exceeded"))
-        T._safety_ctx.append(f.module.split(".")[-1] + "." + qn.split("::")[1])
+        T._safety_ctx.append((f.module or "?").split(".")[-1] + "." + qn.split("::")[1])
+        old_mod, old_cls = getattr(self, "_cur_module", None), getattr(self, "_cur_class", None)
+        self._cur_module, self._cur_class = f.module, f.defclass
         try:
             if isinstance(f.node, ast.Lambda):
                 return self.eval(f.node.body, env)
@@ -1212,6 +1214,7 @@ class Interp:
             return None
         finally:
             T._safety_ctx.pop()
+            self._cur_module, self._cur_class = old_mod, old_cls
             self.call_depth = max(0, self.call_depth - 1)
 
 
